@@ -91,6 +91,7 @@ TwoPosts == <<PAmt(AcctBank, A(N1250, "USD")), POmit(AcctFood)>>
 HeaderShapes == {
   Txn(D1, None, "", NoneS, "Grocery store", <<>>, TwoPosts),
   Txn(D1, D2, "", NoneS, "Grocery store", <<>>, TwoPosts),
+  Txn(D1, D1, "", NoneS, "Grocery store", <<>>, TwoPosts),      \* an effective date that repeats the date is still written down
   Txn(D1, None, "*", NoneS, "スーパー マーケット", <<>>, TwoPosts),
   Txn(D1, None, "!", "#123", "Grocery store", <<>>, TwoPosts),
   Txn(D1, D2, "*", "code with space", "Payee", <<>>, TwoPosts),
